@@ -369,8 +369,10 @@ Definition gen_start (g : gen) (nw : Z) (isShifted : bool) : res gen :=
 (** ** The SegmentTimeline of one adaptation set: list of S elements (t or -1, d, r) *)
 Definition selem : Type := Z * Z * Z.
 
-(** loop of modifySegmentTemplate; [cur] is the S element under construction *)
-Fixpoint timeline_loop (b : sdb) (seqNr : Z) (n : nat) (cur : option selem) (done : list selem)
+(** loop of modifySegmentTemplate; [cur] is the S element under construction, [nextT] (uint64) the time at
+    which the next segment starts if it follows the listed ones without a gap (since 4e0d5ea: a segment that
+    starts elsewhere opens a new S element with an explicit @t) *)
+Fixpoint timeline_loop (b : sdb) (seqNr : Z) (n : nat) (cur : option selem) (nextT : Z) (done : list selem)
   : res (option (list selem)) :=
   match n with
   | O => Ok (Some (done ++ match cur with Some s => [s] | None => [] end))
@@ -380,10 +382,13 @@ Fixpoint timeline_loop (b : sdb) (seqNr : Z) (n : nat) (cur : option selem) (don
     | None => Ok None                                  (* "no segment data for seqNr" *)
     | Some sd =>
       match cur with
-      | None => timeline_loop b (seqNr + 1) k (Some (i_dts sd, i_dur sd, 0)) done
+      | None => timeline_loop b (seqNr + 1) k (Some (i_dts sd, i_dur sd, 0)) (u64 (i_dts sd + i_dur sd)) done
       | Some (t, d, r) =>
-        if i_dur sd =? d then timeline_loop b (seqNr + 1) k (Some (t, d, r + 1)) done
-        else timeline_loop b (seqNr + 1) k (Some (-1, i_dur sd, 0)) (done ++ [(t, d, r)])
+        if (i_dur sd =? d) && (i_dts sd =? nextT)
+        then timeline_loop b (seqNr + 1) k (Some (t, d, r + 1)) (u64 (nextT + i_dur sd)) done
+        else timeline_loop b (seqNr + 1) k
+               (Some ((if i_dts sd =? nextT then -1 else i_dts sd), i_dur sd, 0))
+               (u64 (i_dts sd + i_dur sd)) (done ++ [(t, d, r)])
       end
     end
   end.
@@ -398,7 +403,7 @@ Fixpoint timelines (g : gen) (first last : Z) (asets : list (list Z)) : res (opt
       match lookup rep (g_bufs g) with
       | None => Ok None                                (* no segment data buffer for representation *)
       | Some b =>
-        do tl <- timeline_loop b first (Z.to_nat (last - first + 1)) None [];
+        do tl <- timeline_loop b first (Z.to_nat (last - first + 1)) None 0 [];
         match tl with
         | None => Ok None
         | Some tl => do r <- timelines g first last rest;
